@@ -19,7 +19,7 @@ VERIF = os.path.dirname(os.path.abspath(__file__))
 REPO = os.environ.get("VERIF_REPO", "/repo")
 WORKROOT = os.environ.get("VERIF_WORK", "/var/tmp/verif-work")
 MOD = "github.com/spikeekips/mitum"
-ENGINE_PKGS = ["vlib", "vsched", "vsync", "vatomic", "vtime", "vctx", "vsem"]
+ENGINE_PKGS = ["vlib", "vsched", "vsync", "vatomic", "vtime", "vctx", "crashx"]
 
 GOENV = dict(os.environ)
 GOENV.update({"GOFLAGS": "-mod=mod", "GOPROXY": "off", "GOSUMDB": "off", "GOTOOLCHAIN": "local"})
